@@ -84,7 +84,9 @@ def rand_script(rng, n, user):
                     sid = rng.choice(sorted(ts))
                     if sid not in live_s:
                         continue
-                    already = any(p == ("S", sid) for p in pend) or sid in closing_s
+                    # (a close was already requested on this Stream object; a re-used id is a new object, even while
+                    # the command for the previous one is still unanswered)
+                    already = sid in closing_s
                     script.append(dict(a="CloseS", x=x, id=sid))
                     used.add(x)
                     if not already:
